@@ -386,7 +386,8 @@ def weight_case(rng, n, cls=None, dyadic=None):
     if cls == "none":
         return {"kind": "none"}
     if cls == "scalar":
-        return {"kind": "scalar", "values": float(pick(rng, [0.0, 0.5, 2.0, 1.0]))}
+        # (a scalar weight may itself be missing: every row is then missing)
+        return {"kind": "scalar", "values": float(pick(rng, [0.0, 0.5, 2.0, 1.0, 0.5, 2.0, 1.0, float("nan")]))}
     pool = [0.0, 0.5, 1.0, 2.0, 0.25, 4.0] if dyadic else [0.0, 0.1, 0.3, 0.7, 1.1, 2.3, 1.0]
     w = numpy.array([pick(rng, pool) for _ in range(n)], dtype=float)
     if not dyadic and n:
